@@ -1184,6 +1184,20 @@ def r_discont(prog, tier):
                           'no comparison between two token numbers found (the test may be written differently)',
                           construct='gap-none'))
             continue
+        # the gap counter is incremented, not set, under the gap test
+        if q == 'gap_degree_node':
+            cfg_ = f.cfg
+            for (p, x, y, c) in preds:
+                for m_ in cfg_.eval_nodes():
+                    if m_.kind == 'stmt' and m_.loops and any(a_.ast is p for a_ in cfg_.assumes_at(m_.id)):
+                        if isinstance(m_.ast, ast.Assign) and isinstance(m_.ast.targets[0], ast.Name) \
+                                and isinstance(m_.ast.value, ast.Constant) and isinstance(m_.ast.value.value, int):
+                            obs.append(Ob('R-DISCONT', f.fq, 'every gap adds one to the gap degree', False,
+                                          '`%s` under the gap test sets the degree instead of incrementing it: it saturates at %r'
+                                          % (unparse(m_.ast), m_.ast.value.value), construct='gap-count:' + unparse(m_.ast), line=m_.lineno))
+                        elif isinstance(m_.ast, ast.AugAssign) and isinstance(m_.ast.op, ast.Add) and unparse(m_.ast.value) == '1':
+                            obs.append(Ob('R-DISCONT', f.fq, 'every gap adds one to the gap degree', True, unparse(m_.ast),
+                                          construct='gap-count', line=m_.lineno, nontrivial=False))
         for (p, x, y, c) in preds:
             # x - y <= c.   gap test: earlier - later <= -2 (later - earlier >= 2); its negation: later - earlier <= 1
             if c in (-2, 1):
